@@ -159,6 +159,31 @@ COMMON_ASSUME = ['the driver (harness/driver.cpp) reports arguments, return valu
                  'TLC evaluates MasaTrace/Masa.tla correctly; the frozen catalogue spec/catalog.json states the intended catalogue']
 
 
+def apalache_inductive():
+    """thorough: the registry core of Masa.tla, typed (spec/MasaRegistryInd.tla), with an inductive invariant discharged by
+    Apalache: SelValid, HeapExact, RegSound for 8 handles and histories of ANY length (TLC covers 2-3 handles).  A tool
+    problem is reported as a note; a violated invariant is a broken specification (exit 2, never a verdict on MASA)."""
+    wd = workdir('apalache')
+    shutil.copy(os.path.join(SPEC, 'MasaRegistryInd.tla'), wd)
+    res = {}
+    for name, args in (('base', ['--init=Init', '--length=0']), ('step', ['--init=IndInit', '--length=1'])):
+        try:
+            p = subprocess.run(['apalache-mc', 'check', '--cinit=ConstInit', '--inv=IndInv'] + args + ['MasaRegistryInd.tla'], cwd=wd,
+                               stdout=subprocess.PIPE, stderr=subprocess.STDOUT, text=True, timeout=900)
+            out = p.stdout
+        except Exception as ex:
+            out = 'not run: %r' % ex
+        if 'The outcome is: NoError' in out:
+            res[name] = 'proved'
+        elif 'The outcome is: Error' in out:
+            shutil.rmtree(wd, ignore_errors=True)
+            raise InfraError('MasaRegistryInd: the inductive invariant does not hold (%s):\n%s' % (name, out[-1500:]))
+        else:
+            res[name] = 'tool did not complete: ' + out[-200:].replace('\n', ' ')
+    shutil.rmtree(wd, ignore_errors=True)
+    return res
+
+
 def c12(tier_):
     rng = random.Random(seed())
     t0 = time.time()
@@ -179,7 +204,8 @@ def c12(tier_):
         st += s; tr += t; uniq += nu
     for i in range(20 if tier_ == 'quick' else 200):
         execs.append(gen.gen_registry_random(rng, steps=120 if tier_ == 'quick' else 300, apis=('cxx', 'c') if i % 2 else ('cxx',)))
-    return run_trace_check('C12', tier_, execs, suite=True, relax=('live', 'memo'), level='model_checking',
+    ind = apalache_inductive() if tier_ == 'thorough' else None
+    return run_trace_check('C12', tier_, execs, suite=True, relax=('live', 'memo'), level='model_checking', extra_cov=(dict(inductive_invariant_apalache=ind) if ind else None),
         rule='every transition of the bounded registry model (2 handles; 2 precisions x 1 handle; quick: reduced alphabet Lite, thorough: full alphabet) replayed on the real library with a concretisation drawn by seed; thorough: additionally the 3-handle Lite instance, model-checked in full by TLC, a random 1 in 6 of its transitions replayed; plus random long histories over 4 similar handles and both precisions; distinct = distinct (call, arguments) shapes executed',
         assumptions=COMMON_ASSUME, mc=dict(states=st, transitions=tr, distinct_transitions_replayed=uniq, exhaustive=True))
 
